@@ -198,6 +198,10 @@ func runC09(c *core.Ctx) {
 			c09Judge(cs, b)
 		case 4: // NACK / SLI / FIR frames with very long lists (Marshal refuses or copes)
 			n := 4 * (3 + r.Intn(65533))
+			if r.Bool() {
+				// length fields at the multiples of 2^14 words (where 4*length wraps in 16 bits) and next to them
+				n = 4 * (1 + r.Pick(16383, 16384, 16385, 16386, 16387, 32767, 32768, 32769, 32770, 49151, 49152, 49153, 49154, 65534, 65535))
+			}
 			b := make([]byte, n)
 			copy(b[4:], r.Bytes(n-4))
 			pc := [][2]byte{{205, 1}, {205, 2}, {206, 4}, {203, 31}, {204, 1}, {200, 31}, {201, 31}}[r.Intn(7)]
